@@ -129,3 +129,75 @@ pub open spec fn query_lifted<T, E, Q, F: Fn(Deps<Empty>, Env, T) -> Result<Bina
 //@   ensures [C17.query_fn.ready] forall|d: Deps<Q>, env: Env, msg: T| (forall|d0: Deps<Empty>| d0.storage.view() == d.storage.view() && d0.querier.snap() == d.querier.snap() ==> #[trigger] raw_fn.requires((d0, env, msg))) ==> #[trigger] r.requires((d, env, msg))
 //@   ensures [C17.query_fn.sem] forall|d: Deps<Q>, env: Env, msg: T, o: Result<Binary, E>| #[trigger] r.ensures((d, env, msg), o) ==> query_lifted::<T, E, Q, F>(raw_fn, d, env, msg, o)
 //@ end
+
+// ------------------------------------------------------------------ contracts.rs : impl Contract for ContractWrapper -- the last
+// hop between the chain and the user's entry points.  Rule R30: the six `Box<dyn Fn(..)>` fields of ContractWrapper are
+// read as type parameters F1..F6 bounded by the same Fn signatures (Verus has no dyn-Fn objects); what is dropped is the
+// boxing.  Each entry point decodes the message (execute / instantiate / query / sudo / migrate) or takes the Reply as
+// it is, calls exactly the closure registered for it with deps, env, info and the decoded message unchanged, passes an
+// Ok response through unchanged and turns the closure's error into an error; sudo / reply / migrate fail when no
+// closure is registered.
+//@ item src/contracts.rs :: struct ContractWrapper
+//@   attr #[verifier::reject_recursive_types(T1)]
+//@   attr #[verifier::reject_recursive_types(T2)]
+//@   attr #[verifier::reject_recursive_types(T3)]
+//@   attr #[verifier::reject_recursive_types(E1)]
+//@   attr #[verifier::reject_recursive_types(E2)]
+//@   attr #[verifier::reject_recursive_types(E3)]
+//@   attr #[verifier::reject_recursive_types(C)]
+//@   attr #[verifier::reject_recursive_types(Q)]
+//@   attr #[verifier::reject_recursive_types(T4)]
+//@   attr #[verifier::reject_recursive_types(E4)]
+//@   attr #[verifier::reject_recursive_types(E5)]
+//@   attr #[verifier::reject_recursive_types(T6)]
+//@   attr #[verifier::reject_recursive_types(E6)]
+//@   replace_re "pub struct ContractWrapper<[\\s\\S]*?> where[\\s\\S]*?\\{" => "pub struct ContractWrapper<T1, T2, T3, E1, E2, E3, C, Q, T4, E4, E5, T6, E6, F1, F2, F3, F4, F5, F6> {"
+//@   replace "execute_fn: ContractClosure<T1, C, E1, Q>," => "execute_fn: F1, vx_p: core::marker::PhantomData<(T1, T2, T3, E1, E2, E3, C, Q, T4, E4, E5, T6, E6)>,"
+//@   replace "instantiate_fn: ContractClosure<T2, C, E2, Q>," => "instantiate_fn: F2,"
+//@   replace "query_fn: QueryClosure<T3, E3, Q>," => "query_fn: F3,"
+//@   replace "sudo_fn: Option<PermissionedClosure<T4, C, E4, Q>>," => "sudo_fn: Option<F4>,"
+//@   replace "reply_fn: Option<ReplyClosure<C, E5, Q>>," => "reply_fn: Option<F5>,"
+//@   replace "migrate_fn: Option<PermissionedClosure<T6, C, E6, Q>>," => "migrate_fn: Option<F6>,"
+//@ end
+// `o` (what the user's entry point returned) seen through the wrapper: Ok unchanged, Err as an error
+pub open spec fn wrapped<R, E>(o: Result<R, E>, r: AnyResult<R>) -> bool {
+    match o { Ok(x) => r == Ok::<R, AnyError>(x), Err(_) => r is Err }
+}
+//@ impl_open src/contracts.rs :: Contract for ContractWrapper
+//@   replace_re "impl<T1, T2, T3, E1, E2, E3, C, T4, E4, E5, T6, E6, Q> Contract<C, Q>\\s*for ContractWrapper<T1, T2, T3, E1, E2, E3, C, Q, T4, E4, E5, T6, E6>\\s*where[\\s\\S]*$" => "impl<T1: DeserializeOwned, T2: DeserializeOwned, T3: DeserializeOwned, E1, E2, E3, C, T4: DeserializeOwned, E4, E5, T6: DeserializeOwned, E6, Q, F1: Fn(DepsMut<Q>, Env, MessageInfo, T1) -> Result<Response<C>, E1>, F2: Fn(DepsMut<Q>, Env, MessageInfo, T2) -> Result<Response<C>, E2>, F3: Fn(Deps<Q>, Env, T3) -> Result<Binary, E3>, F4: Fn(DepsMut<Q>, Env, T4) -> Result<Response<C>, E4>, F5: Fn(DepsMut<Q>, Env, Reply) -> Result<Response<C>, E5>, F6: Fn(DepsMut<Q>, Env, T6) -> Result<Response<C>, E6>> ContractWrapper<T1, T2, T3, E1, E2, E3, C, Q, T4, E4, E5, T6, E6, F1, F2, F3, F4, F5, F6>"
+//@ end
+//@ fn src/contracts.rs :: Contract for ContractWrapper :: execute
+//@   ret r
+//@   requires [C05.wrapper.execute_pre] forall|m: T1| spec_from_json::<T1>(msg@) == Ok::<T1, StdError>(m) ==> #[trigger] self.execute_fn.requires((deps, env, info, m))
+//@   ensures [C05.wrapper.execute,C03,C04,C17] match spec_from_json::<T1>(msg@) { Err(_) => r is Err, Ok(m) => exists|o: Result<Response<C>, E1>| #[trigger] self.execute_fn.ensures((deps, env, info, m), o) && wrapped(o, r) }
+//@ end
+//@ fn src/contracts.rs :: Contract for ContractWrapper :: instantiate
+//@   ret r
+//@   requires [C05.wrapper.instantiate_pre] forall|m: T2| spec_from_json::<T2>(msg@) == Ok::<T2, StdError>(m) ==> #[trigger] self.instantiate_fn.requires((deps, env, info, m))
+//@   ensures [C05.wrapper.instantiate,C03,C04,C11] match spec_from_json::<T2>(msg@) { Err(_) => r is Err, Ok(m) => exists|o: Result<Response<C>, E2>| #[trigger] self.instantiate_fn.ensures((deps, env, info, m), o) && wrapped(o, r) }
+//@ end
+//@ fn src/contracts.rs :: Contract for ContractWrapper :: query
+//@   ret r
+//@   requires [C10.wrapper.query_pre] forall|m: T3| spec_from_json::<T3>(msg@) == Ok::<T3, StdError>(m) ==> #[trigger] self.query_fn.requires((deps, env, m))
+//@   ensures [C10.wrapper.query,C08] match spec_from_json::<T3>(msg@) { Err(_) => r is Err, Ok(m) => exists|o: Result<Binary, E3>| #[trigger] self.query_fn.ensures((deps, env, m), o) && wrapped(o, r) }
+//@ end
+//@ fn src/contracts.rs :: Contract for ContractWrapper :: sudo
+//@   ret r
+//@   requires [C05.wrapper.sudo_pre] forall|m: T4| (spec_from_json::<T4>(msg@) == Ok::<T4, StdError>(m) && self.sudo_fn is Some) ==> #[trigger] (self.sudo_fn->0).requires((deps, env, m))
+//@   ensures [C05.wrapper.sudo,C01,C20] match spec_from_json::<T4>(msg@) { Err(_) => r is Err, Ok(m) => match self.sudo_fn { None => r is Err, Some(f) => exists|o: Result<Response<C>, E4>| #[trigger] f.ensures((deps, env, m), o) && wrapped(o, r) } }
+//@ end
+//@ fn src/contracts.rs :: Contract for ContractWrapper :: reply
+//@   ret r
+//@   requires [C03.wrapper.reply_pre] self.reply_fn is Some ==> (self.reply_fn->0).requires((deps, env, reply_data))
+//@   ensures [C03.wrapper.reply,C02,C20] match self.reply_fn { None => r is Err, Some(f) => exists|o: Result<Response<C>, E5>| #[trigger] f.ensures((deps, env, reply_data), o) && wrapped(o, r) }
+//@ end
+//@ fn src/contracts.rs :: Contract for ContractWrapper :: migrate
+//@   ret r
+//@   requires [C12.wrapper.migrate_pre] forall|m: T6| (spec_from_json::<T6>(msg@) == Ok::<T6, StdError>(m) && self.migrate_fn is Some) ==> #[trigger] (self.migrate_fn->0).requires((deps, env, m))
+//@   ensures [C12.wrapper.migrate,C20] match spec_from_json::<T6>(msg@) { Err(_) => r is Err, Ok(m) => match self.migrate_fn { None => r is Err, Some(f) => exists|o: Result<Response<C>, E6>| #[trigger] f.ensures((deps, env, m), o) && wrapped(o, r) } }
+//@ end
+//@ fn src/contracts.rs :: Contract for ContractWrapper :: checksum
+//@   ret r
+//@   ensures [C20.wrapper.checksum_reported] r == self.checksum
+//@ end
+}
